@@ -185,26 +185,26 @@ type LoopSpec struct {
 
 // FuncSpec is the contract of one function / closure / interface method / external.
 type FuncSpec struct {
-	Key       string // e.g. "mergePtr", "(*imports).Alias", "ValidateServicesScopes$1", "strings.HasPrefix"
-	Kind      string // "func", "closure", "interface", "extern"
-	Pkg       string // package path the contract file belongs to ("" for assumed specs)
-	Props     []string
-	Pure      bool
-	Effect    bool
-	Trusted   bool // contract is assumed, body not verified (reason mandatory)
-	TrustWhy  string
-	Requires  []*Clause
-	Ensures   []*Clause
-	Modifies  []Expr
-	Loops     map[int]*LoopSpec
-	Params    []Var // for extern/interface specs that name their parameters
-	Results   []Var
-	Pos       Position
-	NoBody    bool // extern / interface
-	Inline    bool // callers inline the body instead of using a contract
-	Witnesses []string
-	Deterministic bool // govc proves that the postconditions admit at most one result per input
-	Uses      []string // lemmas whose (universally quantified) statements are assumed in this function's proofs
+	Key           string // e.g. "mergePtr", "(*imports).Alias", "ValidateServicesScopes$1", "strings.HasPrefix"
+	Kind          string // "func", "closure", "interface", "extern"
+	Pkg           string // package path the contract file belongs to ("" for assumed specs)
+	Props         []string
+	Pure          bool
+	Effect        bool
+	Trusted       bool // contract is assumed, body not verified (reason mandatory)
+	TrustWhy      string
+	Requires      []*Clause
+	Ensures       []*Clause
+	Modifies      []Expr
+	Loops         map[int]*LoopSpec
+	Params        []Var // for extern/interface specs that name their parameters
+	Results       []Var
+	Pos           Position
+	NoBody        bool // extern / interface
+	Inline        bool // callers inline the body instead of using a contract
+	Witnesses     []string
+	Deterministic bool     // govc proves that the postconditions admit at most one result per input
+	Uses          []string // lemmas whose (universally quantified) statements are assumed in this function's proofs
 }
 
 // SpecFunc is `spec name(params) type = expr` (a defined pure function) or,
@@ -229,14 +229,15 @@ type Axiom struct {
 // Lemma is a formula to be proved from axioms/spec definitions and the
 // contracts (ensures) of the functions it mentions.
 type Lemma struct {
-	Uses   []string // names of lemmas whose statements are assumed here (each is proved on its own)
-	Name   string
-	Pkg    string
-	Props  []string
-	Vars   []Var
-	Hyps   []*Clause
-	Concl  []*Clause
-	Pos    Position
+	Uses  []string // names of lemmas whose statements are assumed here (each is proved on its own)
+	Induction string // name of an int variable: the lemma is proved by natural induction on it (for values >= 0)
+	Name  string
+	Pkg   string
+	Props []string
+	Vars  []Var
+	Hyps  []*Clause
+	Concl []*Clause
+	Pos   Position
 }
 
 // SortDecl declares a spec-level datatype: `sort Node = svc(n string) | par(n string)`.
